@@ -152,7 +152,7 @@ def judge_vectors(chk, cfg, r, run, props):
 PLANS.update({"C02": plan_C02, "C03": plan_C03, "C17": plan_C17})
 
 
-def simple(chk, module, cfgs, props, invariants, cases="MC_Cases", extra_constants="", workers=8, timeout=1800, max_exchanges=1):
+def simple(chk, module, cfgs, props, invariants, cases="MC_Cases", extra_constants="", workers=8, timeout=3000, max_exchanges=1):
     for cfg in cfgs:
         run = "%s.%s.%s.%s" % (chk.prop, module, cases, cfg)
         r = tlc(module, scenario_cfg(cfg, cases, invariants, max_exchanges, extra_constants), run,
@@ -211,3 +211,34 @@ def plan_C12(chk, tier, seed):
 
 
 PLANS.update({"C12": plan_C12})
+
+
+def plan_C13(chk, tier, seed):
+    cfgs = ["all"] if tier == "quick" else ["none", "all"]
+    deep = "TRUE" if tier == "thorough" else "FALSE"
+    simple(chk, "MC_Truncate", cfgs, ["C13"],
+           ["TypeOK", "DecodeTotal", "DecodeFaithful", "TypeDecodeFaithful", "ExpectedOutcome", "TruncateOnBoundary", "Emit"],
+           extra_constants="    Deep = %s\n" % deep, workers=14)
+    return ("names whose four characters straddling the 64-byte cut take every combination of widths 1-4 for every "
+            "alignment (pad 54..64), realised with common and with extreme code points of each width; lengths 0..300; "
+            "user.name / user.displayName / rp.name stand-alone and inside MakeCredential and CredentialManagement; "
+            "user icon and rp icon/url at every length around 128 (thorough: 0..300); 15 kinds of ill-formed UTF-8 at "
+            "positions across a 70-byte text in every text member; TLC checks the window lemma (the unsafe block's "
+            "precondition), operational window scan == declarative longest-prefix-on-a-boundary, valid UTF-8 and <= 64")
+
+
+def plan_C14(chk, tier, seed):
+    cfgs = ["none", "all"]
+    mp, mf = (5, 4) if tier == "quick" else (6, 5)
+    simple(chk, "MC_Filter", cfgs, ["C14"],
+           ["TypeOK", "DecodeTotal", "DecodeFaithful", "TypeDecodeFaithful", "FilterInOrder", "Emit"],
+           extra_constants="    MaxP = %d\n    MaxF = %d\n" % (mp, mf))
+    chk.exhaustive = True
+    return ("ALL lists of credential parameters of length 0..%d over {ES256, EdDSA, unknown algorithm, ES256 with "
+            "unknown type} and ALL attestation-format lists of length 0..%d over {packed, none, tpm, other} inside "
+            "MakeCredential / GetAssertion, algorithm identifiers across the i32 range x type strings of 0..32 bytes, "
+            "lists of up to 64 entries; TLC checks FilterInOrder (declarative filter) against the decoder's loop; "
+            "exhaustive over the stated list alphabets on both sides" % (mp, mf))
+
+
+PLANS.update({"C13": plan_C13, "C14": plan_C14})
